@@ -452,6 +452,29 @@ func (s *sim) afterOp() {
 	if s.viol != nil || s.dead {
 		return
 	}
+	// C06: a waiting round-robin BIND must be parked, not spinning
+	for _, w := range s.waiters {
+		spinning := true
+		for i := 0; i < 1500 && spinning; i++ {
+			if w.op.isDone() {
+				spinning = false
+				break
+			}
+			st, _ := vGoroutineState(w.op.gid)
+			if vIsWaitState(st) || vIsLockState(st) || st == "" {
+				spinning = false
+			} else {
+				time.Sleep(time.Millisecond)
+			}
+		}
+		s.hit("C06.waiter-parked")
+		if spinning {
+			st, fr := vGoroutineState(w.op.gid)
+			s.fail("C06.waiter-spins", vRepoChain(fr, simPkg), "a waiting round-robin BIND pick has been running (state %q) for 1500 consecutive samples over >1.5s instead of being parked: it busy-waits", st)
+			s.dead = true
+			return
+		}
+	}
 	// C06: no lock left held. RR waiters take a read lock for an instant on
 	// their 100ms tick, so retry before concluding.
 	locked := true
@@ -1501,7 +1524,8 @@ func simBias(prop string, rng *vRand) map[string]bool {
 		pick("keys", 100)
 		pick("stale", 40)
 		pick("homedown", 50)
-		pick("nofallback", 60)
+		pick("nofallback", 40)
+		pick("rebind-macro", 35)
 		pick("rr", 15)
 	case "C02":
 		pick("load", 100)
@@ -1513,6 +1537,7 @@ func simBias(prop string, rng *vRand) map[string]bool {
 		pick("saturate", 100)
 		pick("stale", 50)
 		pick("factoryfail", 30)
+		pick("emptyresolve", 35)
 		pick("shutdown", 30)
 		pick("refresh", 30)
 	case "C04":
@@ -1556,6 +1581,7 @@ func simBias(prop string, rng *vRand) map[string]bool {
 		pick("saturate", 50)
 		pick("refresh", 50)
 		pick("stale", 30)
+		pick("rebind-macro", 30)
 	case "C09":
 		pick("rr", 100)
 		pick("keys", 50)
@@ -1678,7 +1704,15 @@ func simRunCase(env vEnv, out *vOut, idx int64) *sim {
 		s.refreshChain(1 + rng.Intn(45))
 	}
 	nOps := 30 + rng.Intn(90)
+	macroAt := -1
+	if b["rebind-macro"] && s.fallback && !s.hostile && !s.rr {
+		macroAt = rng.Intn(nOps)
+	}
 	for i := 0; i < nOps && s.viol == nil && !s.dead; i++ {
+		if i == macroAt {
+			s.macroRebindAfterFallbackUnbind()
+			continue
+		}
 		s.step()
 	}
 	if s.viol == nil && !s.dead {
@@ -2228,4 +2262,93 @@ func (s *sim) refreshChain(n int) {
 			}
 		}
 	}
+}
+
+// macroRebindAfterFallbackUnbind: directed sequence (judged by the ordinary
+// rules): bind K on H; H goes down; a call for K gets a stand-in; UNBIND K via
+// the stand-in succeeds; K is bound again, on whatever READY channel the BIND
+// lands on; a BOUND call for K must then go to that new home.
+func (s *sim) macroRebindAfterFallbackUnbind() {
+	ok := func() bool { return s.viol == nil && !s.dead }
+	// two READY channels if possible
+	n := 0
+	for _, ch := range s.pool() {
+		for guard := 0; !ch.ready() && guard < 5 && ok() && ch.repl == nil; guard++ {
+			if ch.conn.state == connectivity.Idle {
+				s.report(ch.conn, connectivity.Connecting)
+			} else {
+				s.report(ch.conn, connectivity.Ready)
+			}
+		}
+		if ch.ready() {
+			n++
+		}
+	}
+	if !ok() || n < 2 || len(s.pubs) == 0 {
+		return
+	}
+	key := ""
+	for _, k := range simKeys {
+		if _, bound := s.bind[k]; !bound {
+			key = k
+		}
+	}
+	if key == "" {
+		return
+	}
+	cur := func() *simPub { return s.pubs[len(s.pubs)-1] }
+	lastCall := func(before int) int {
+		if len(s.calls) == before+1 {
+			return len(s.calls) - 1
+		}
+		return -1
+	}
+	s.hit("C01.macro-rebind")
+	// 1. bind key
+	before := len(s.calls)
+	s.start("/v/bind", key, cur(), true, false, 0, nil, false)
+	i := lastCall(before)
+	if !ok() || i < 0 {
+		return
+	}
+	s.finish(i, "ok", []string{key})
+	home, bound := s.bind[key]
+	if !ok() || !bound || !home.alive {
+		return
+	}
+	// 2. home goes down
+	s.report(home.conn, connectivity.Idle)
+	if !ok() {
+		return
+	}
+	// 3. a call for the key gets a stand-in; keep it open so that the stand-in carries load
+	s.start("/v/bound", key, cur(), true, false, 0, nil, false)
+	if !ok() {
+		return
+	}
+	// 4. UNBIND through the stand-in succeeds
+	before = len(s.calls)
+	s.start("/v/unbind", key, cur(), true, false, 0, nil, false)
+	i = lastCall(before)
+	if !ok() || i < 0 {
+		return
+	}
+	s.finish(i, "ok", nil)
+	if !ok() {
+		return
+	}
+	// 5. bind again
+	before = len(s.calls)
+	s.start("/v/bind", key, cur(), true, false, 0, nil, false)
+	i = lastCall(before)
+	if !ok() || i < 0 {
+		return
+	}
+	s.finish(i, "ok", []string{key})
+	if !ok() {
+		return
+	}
+	// 6. a call for the key must go to its new home
+	s.hit("C01.macro-rebind-complete")
+	s.start("/v/bound", key, cur(), true, false, 0, nil, false)
 }
